@@ -1,9 +1,10 @@
 ---------------------------- MODULE Trace_Outline ----------------------------
 (* impl -> spec: every record is one observed run of lopdf on a bookmark forest the driver chose *)
-(*   add_bookmark* ; [adjust_zero_pages] ; build_outline ; catalog /Outlines ; get_toc ;         *)
+(*   add_bookmark* ; [adjust_zero_pages] ; build_outline ; (add_object | new_object_id)* ;       *)
+(*   catalog /Outlines (catalog_mut, or a new catalog made with add_object) ; get_toc ;          *)
 (*   save_to/load_mem (xref table and xref stream) ; get_toc                                     *)
 (* logged as [np, pageids, adds, adjust, bids, roots, children, adj, base, oldids, changed, root,*)
-(* rootrec, max_id, items, toc0, toc1, toc2].  Outline!Judge (declarative layer) decides; the     *)
+(* rootrec, max_id, items, later, toc0, toc1, toc2].  Outline!Judge (declarative layer) decides; the     *)
 (* impl-shaped functions are run on the same forest only to report drift.                        *)
 EXTENDS Outline, Json, IOUtils
 
@@ -12,7 +13,7 @@ Recs == ndJsonDeserialize(IOEnv.TRACE)
 VARIABLE l
 
 OgOf(r) == [root |-> r.root, rootrec |-> r.rootrec, max_id |-> r.max_id, oldids |-> r.oldids,
-            changed |-> r.changed, items |-> r.items]
+            changed |-> r.changed, later |-> r.later, items |-> r.items]
 
 \* does lopdf agree with the transcription (ids, table contents, adjusted pages, toc)?
 Drift(r) ==
@@ -20,13 +21,14 @@ Drift(r) ==
         s0  == ImplForest(r.adds)
         s1  == IF r.adjust THEN ImplAdjust(s0) ELSE s0
         b   == ImplBuild(s1, r.base)
-        og  == ImplOg(b, 0, r.pageids)
+        og  == ImplOg(b, 0, r.pageids, <<>>)
         P(p) == IF p \in 1..Len(r.pageids) THEN r.pageids[p] ELSE 0
     IN \/ r.bids # [k \in 1..n |-> k]
        \/ r.roots # s0.bms
        \/ \E k \in 1..n : r.children[k] # s0.tbl[k].children
        \/ \E k \in 1..n : r.adj[k] # P(s1.tbl[k].page)
        \/ r.root # b.root \/ r.max_id # b.maxid
+       \/ r.later # [j \in 1..Len(r.later) |-> b.maxid + j]
        \/ r.rootrec.first # og.rootrec.first \/ r.rootrec.last # og.rootrec.last
        \/ Len(r.items) # Len(og.items)
        \/ \E j \in 1..Len(og.items) : r.items[j] # og.items[j]
